@@ -188,7 +188,7 @@ Theorem interp_imports_exact :
   ["bufio"; "bytes"; "context"; "encoding/csv"; "errors"; "fmt";
    "github.com/benhoyt/goawk/internal/ast"; "github.com/benhoyt/goawk/internal/compiler";
    "github.com/benhoyt/goawk/internal/resolver"; "github.com/benhoyt/goawk/lexer"; "github.com/benhoyt/goawk/parser";
-   "io"; "io/fs"; "math"; "math/rand"; "os"; "os/exec"; "reflect"; "regexp"; "runtime"; "sort"; "strconv"; "strings";
+   "io"; "io/fs"; "math"; "math/big"; "math/rand"; "os"; "os/exec"; "reflect"; "regexp"; "runtime"; "sort"; "strconv"; "strings";
    "syscall"; "time"; "unicode/utf8"].
 Proof. reflexivity. Qed.
 
